@@ -233,7 +233,7 @@ func checkBigFloat(w *eng.W, b ref.Bits, v ref.Val) {
 		if eff == 0 {
 			eff = 128
 		}
-		if got == nil || got.Prec() != eff && prec != 0 {
+		if got == nil || got.Prec() != eff { // nil argument: the default 128 bits the property names
 			w.R.Fail(eng.Case{Op: "Float", Args: []string{b.Hex(), fmt.Sprint(prec)}, Got: fmt.Sprint("result precision ", got.Prec()), Want: fmt.Sprint("precision ", eff)})
 			continue
 		}
